@@ -27,7 +27,7 @@ UNENC = {"utf-8": "\udc80", "cp1252": "猫", "cp932": "한", "cp949": "\U0001f60
 
 def base_case(fmt, codec, fs, output, backup):
     r = random.Random(hash((fmt, codec)) & 0xffff)
-    text = "// not the library's own layout\n#TITLE:%s;\n#ARTIST:%s;\n#BPMS:0.000=120.000;\n" % (F.rand_str(r, codec, 3), F.rand_str(r, codec, 2))
+    text = "// not the library's own layout\n#TITLE:%s;\n#ARTIST:%s;\n#BPMS:0.000=120.000;\n#SUBTITLE;\n#ATTACKS;\n#DISPLAYBPM;\n" % (F.rand_str(r, codec, 3), F.rand_str(r, codec, 2))
     if fmt == "ssc":
         text = "#VERSION:0.83;\n" + text + "#NOTEDATA:;\n#STEPSTYPE:dance-single;\n#NOTES:\n0000\n;\n"
     else:
